@@ -48,6 +48,43 @@ def _pattern_test(pat: ast.pattern, subject: ast.expr):
 
 
 class _Desugar(ast.NodeTransformer):
+    _fdepth = 0
+
+    def visit_FunctionDef(self, node):
+        self._fdepth += 1
+        try:
+            return self.generic_visit(node)
+        finally:
+            self._fdepth -= 1
+
+    visit_AsyncFunctionDef = visit_FunctionDef
+
+    def visit_ClassDef(self, node):
+        saved, self._fdepth = self._fdepth, 0  # a class body inside a function is not function scope
+        try:
+            return self.generic_visit(node)
+        finally:
+            self._fdepth = saved
+
+    def visit_AnnAssign(self, node: ast.AnnAssign):
+        """Inside a function `x: T = v` is `x = v`: annotations of function-scope targets are never evaluated.  The
+        annotation stays available as `_annotation` (interface types are read from it)."""
+        self.generic_visit(node)
+        if self._fdepth and node.value is not None:
+            new = ast.Assign(targets=[node.target], value=node.value)
+            new._annotation = node.annotation  # type: ignore[attr-defined]
+            return _mark(new, node)
+        return node
+
+    def visit_Return(self, node: ast.Return):
+        """`return a if c else b`  ==  `if c: return a` / `else: return b` (same evaluation order, one arm evaluated):
+        the analyses see the statement form."""
+        self.generic_visit(node)
+        v = node.value
+        if isinstance(v, ast.IfExp):
+            return _mark(ast.If(test=v.test, body=[self.visit_Return(_mark(ast.Return(value=v.body), node))], orelse=[self.visit_Return(_mark(ast.Return(value=v.orelse), node))]), node)
+        return node
+
     def __init__(self) -> None:
         self.count = 0
 
@@ -301,7 +338,7 @@ class _CMDesugar(ast.NodeTransformer):
 
 def desugar(tree: ast.Module) -> ast.Module:
     changed = False
-    if any(isinstance(n, ast.Match) for n in ast.walk(tree)):
+    if any(isinstance(n, (ast.Match, ast.AnnAssign)) or (isinstance(n, ast.Return) and isinstance(n.value, ast.IfExp)) for n in ast.walk(tree)):
         tree = _Desugar().visit(tree)
         changed = True
     if any(isinstance(n, (ast.With, ast.AsyncWith)) for n in ast.walk(tree)):
